@@ -522,6 +522,7 @@ type RevAPI struct {
 	// the same notification through a proxy field without a context parameter
 	NotePingNC func(tok string) error `notify:"true" rpc_method:"R.NotePing"`
 	RSub       func(ctx context.Context, tok string) (<-chan int, error)
+	RBig func(ctx context.Context, tok string, n int) (string, error)
 	// retry-tagged reverse methods
 	IdentR func(ctx context.Context, tok string) (string, error) `retry:"true" rpc_method:"R.Ident"`
 	RHoldR func(ctx context.Context, tok string) (string, error) `retry:"true" rpc_method:"R.RHold"`
@@ -556,6 +557,9 @@ func (s *Svc) Rev(ctx context.Context, tok string, k int, which int) (string, er
 			last, err = rc.RBoom(ctx, t, 0)
 		case 6: // detached context: only the library's own failure path can end this call
 			last, err = rc.RHold(context.Background(), t)
+		case 9: // a large answer from the client-side handler
+			last, err = rc.RBig(ctx, t, 24<<20)
+			last = fmt.Sprintf("rbig:%d:%s", len(last), Trunc40(last))
 		case 7: // retry-tagged, detached context
 			last, err = rc.IdentR(context.Background(), t)
 		case 8:
@@ -645,6 +649,21 @@ func (h *RevHandler) Ident(ctx context.Context, tok string) (string, error) {
 	wait(ctx, g)
 	return h.Identity + "/" + tok, nil
 }
+func (h *RevHandler) RBig(ctx context.Context, tok string, n int) (string, error) {
+	r, g := h.S.enter(ctx, "RBig", tok)
+	defer h.S.exit(ctx, r)
+	wait(ctx, g)
+	return h.Identity + "/" + tok + ":" + strings.Repeat("y", n), nil
+}
+
+// Trunc40 returns at most the first 40 bytes of s.
+func Trunc40(s string) string {
+	if len(s) > 40 {
+		return s[:40]
+	}
+	return s
+}
+
 func (h *RevHandler) RFail(ctx context.Context, tok string) (string, error) {
 	r, _ := h.S.enter(ctx, "RFail", tok)
 	defer h.S.exit(ctx, r)
